@@ -26,9 +26,10 @@ enum K { MKDIR = 0, MKFILE, STR_LAW, STR_ANY, V_PUSH_CTOR, V_PUSH_DEFAULT, V_SET
 
 std::string gen_name(int a, int b) {
     static const char *fixed[] = {"a", "b.txt", ".hidden", "..rc", "...", "with space", "\xc3\xbc\xc3\xaf", "\xff\xfe", "back\\slash", "-dash", "x..y", "UPPER",
-                                  "tab\tname", "..cache", ".a.", "~", "*", "name.", "\x01", "long_name_long_name_long_name_long_name_long_name_long_name_64+"};
+                                  "tab\tname", "..cache", ".a.", "~", "*", "name.", "\x01", "long_name_long_name_long_name_long_name_long_name_long_name_64+",
+                                  "a:b", "x:", "9:45 standup.txt", ":", "C:", "-", "%s", "a\nb"};
     unsigned ua = (unsigned)a, ub = (unsigned)b;
-    if (ua % 4 != 3) return fixed[ub % 20];
+    if (ua % 4 != 3) return fixed[ub % 28];
     std::string s; unsigned x = ub * 2654435761u + ua; size_t n = 1 + x % 8;
     for (size_t i = 0; i < n; ++i) { x = x * 1103515245u + 12345u; unsigned char ch = (unsigned char)(1 + (x >> 16) % 255); if (ch == '/') ch = '_'; s += (char)ch; }
     if (s == "." || s == "..") s += "x";
@@ -95,7 +96,19 @@ void run_c18(const Case &c) {
     const std::string cwd0 = fs::current_path().string();
     auto cwd = [] { return fs::current_path().string(); };
     auto vdir = [&](int a, int b) -> std::string {
-        switch ((unsigned)a % 6) {
+        switch ((unsigned)a % 7) {
+        case 6: {   // a directory whose absolute path is longer than 255 bytes (created on demand)
+            std::string d = root;
+            for (int i = 0; i < 5; ++i) d += "/deep_directory_name_deep_directory_name_deep_directory_name_" + std::to_string(i);
+            std::error_code ec; fs::create_directories(d, ec);
+            if (!ec && nodes.size() < 200 && !fs::exists(root + "/.deep_registered")) {
+                std::string p = root;
+                for (int i = 0; i < 5; ++i) { p += "/deep_directory_name_deep_directory_name_deep_directory_name_" + std::to_string(i); nodes.push_back(Node{p, true, 0}); dirs.push_back(nodes.size() - 1); depth.push_back(9); }
+                std::ofstream(root + "/.deep_registered").put('x'); nodes.push_back(Node{root + "/.deep_registered", false, 1});
+            }
+            label("deep_directory");
+            return d;
+        }
         case 0: return "";
         case 1: return root + "/does-not-exist";
         case 2: return nodes[dirs[(unsigned)b % dirs.size()]].path;
